@@ -7,3 +7,5 @@ export VERIF_REPO="${VERIF_REPO:-/repo}"
 export PYTHONPATH="$VERIF_REPO:$HERE"
 /venv/bin/python -m compileall -q vmc >/dev/null
 /venv/bin/python -m vmc.selftest
+# stand-ins for the third-party packages the code generator needs (absent offline): conformance against upstream fixtures
+PYTHONPATH="$VERIF_REPO:$HERE/shims" PATH="$HERE/shims/bin:$PATH" /venv/bin/python "$HERE/shims/conformance.py" --fast | tail -3
